@@ -130,7 +130,7 @@ def tree_part(ctx):
 
 def main_loop_part(ctx, diffs):
     """growing / size-neutral / failing stub passes: the main loop ends, and within (initial total + 1) rounds"""
-    bias = {'p_contract': 0.3, 'p_faults': 0.1, 'files': [1, 2], 'max_passes': 3}
+    bias = {'p_contract': 0.3, 'p_faults': 0.1, 'files': [1, 2], 'max_passes': 3, 'p_endless': 0.15}
     scens = [D.gen_scenario(ctx.rng, bias) for _ in range(200 if ctx.tier == 'quick' else 3000)]
 
     def orc(scen, obs):
@@ -153,7 +153,7 @@ def main_loop_part(ctx, diffs):
 
     def nt(scen, obs):
         return D.scen_key(scen) if len([m for m in obs.get('marked', [])]) > len(scen['groups']['first']) + len(scen['groups']['main']) + len(scen['groups']['last']) else None
-    D.sweep(ctx, scens + [stop_family(ctx.rng) for _ in range(12 if ctx.tier == 'quick' else 100)], [orc, oracle_stop], diffs, nt)
+    D.sweep(ctx, scens + [stop_family(ctx.rng) for _ in range(12 if ctx.tier == 'quick' else 100)], [orc, oracle_stop, D.oracle_giveup], diffs, nt)
 
 
 def stop_family(rng):
